@@ -159,9 +159,11 @@ func (g *Gen) objectP(depth int, path []string, encl [][]string, inherit *scope,
 			possible = parent.Possible
 		}
 	} else {
-		switch g.R.Pick(4) {
-		case 0:
-		case 1:
+		switch shape := g.R.Pick(4); {
+		case g.TypeShapes:
+			possible = g.typeShape(o)
+		case shape == 0:
+		case shape == 1:
 			possible = []string{o.TypeName}
 		default:
 			o.TypeName = "I"
@@ -186,9 +188,12 @@ func (g *Gen) objectP(depth int, path []string, encl [][]string, inherit *scope,
 	}
 	encl2 := append([][]string{possible}, encl...)
 	nf := 1 + g.R.Pick(4)
-	if (len(possible) > 1 || g.R.Chance(1, 3)) && (g.Overlap || sc.free([]string{"__typename"})) {
+	if (len(possible) > 1 || g.R.Chance(1, 3) || (g.TypeShapes && g.R.Chance(1, 2))) && (g.Overlap || sc.free([]string{"__typename"})) {
 		sc.used = append(sc.used, []string{"__typename"})
 		tn := &Node{Kind: KStr, Path: []string{"__typename"}, Nullable: g.R.Chance(1, 5)}
+		if g.TypeShapes {
+			tn = g.typeNameLeaf()
+		}
 		g.count(tn, false)
 		o.Fields = append(o.Fields, &Field{Name: "__typename", Value: tn})
 	}
